@@ -84,8 +84,21 @@ def rewire(n, rng):
                 if x > 0.96 and isinstance(p, sdn.InnerPin) and p.wire is not None and p.port is not None and len(p.port.pins) > 1:
                     # a wired port pin is removed from its port: it stays on its wire, belonging to no port - a left-over that later
                     # pins of that wire stand behind
-                    p.port.remove_pin(p)
+                    port_ = p.port
+                    port_.remove_pin(p)
                     moved += 1
+                    if rng.random() < 0.6:
+                        # ... and the SAME pin object is put back (undo / the bit moved inside its bus); the instances of the cell
+                        # get a fresh pin for it, wired outside again
+                        port_.add_pin(p, position=rng.randint(0, len(port_.pins)))
+                        for inst in list(d.references):
+                            pd = inst.parent
+                            if pd is None or p not in inst.pins:
+                                continue
+                            pw = [w for c in pd.cables for w in c.wires]
+                            if pw and rng.random() < 0.8:
+                                rng.choice(pw).connect_pin(inst.pins[p])
+                        moved += 1
                     continue
                 if x < 0.25:
                     # every spelling of the public API: the pin object itself or, for an instance pin, a by-value handle
